@@ -93,7 +93,29 @@ func checkC13(p *Prog, r *Report) {
 			continue
 		}
 		nWriters++
-		// error edges of fs.Walk results
+		// error edges of fs.Walk results (or of a helper of this package that returns the walk's error: storeTree(tw, root))
+		var isWalkLike func(i ssa.Instruction) bool
+		isWalkLike = func(i ssa.Instruction) bool {
+			if isCallTo(i, "fs.Walk", "fs.WalkMode") || callsFn(i, storeFile) {
+				return true
+			}
+			c, ok := i.(*ssa.Call)
+			if !ok {
+				return false
+			}
+			g := c.Call.StaticCallee()
+			if g == nil || g.Blocks == nil || g == fn || g.Pkg != fn.Pkg || g.Signature.Results().Len() != 1 || typeString(g.Signature.Results().At(0).Type()) != "error" {
+				return false
+			}
+			for _, ret := range returnsOf(g) {
+				for x := range backSlice(unspill(ret.Results[0]), SliceOpts{NoCallArgs: true}) {
+					if wc, ok := x.(*ssa.Call); ok && wc.Parent() == g && (isCallTo(wc, "fs.Walk", "fs.WalkMode") || callsFn(wc, storeFile)) {
+						return true
+					}
+				}
+			}
+			return false
+		}
 		nEdges := 0
 		for _, b := range fn.Blocks {
 			iff, ok := lastIf(b)
@@ -105,7 +127,7 @@ func checkC13(p *Prog, r *Report) {
 				continue
 			}
 			c, isCall := x.(*ssa.Call)
-			if !isCall || !isCallTo(c, "fs.Walk", "fs.WalkMode") && !callsFn(c, storeFile) {
+			if !isCall || !isWalkLike(c) {
 				continue
 			}
 			nEdges++
@@ -163,7 +185,7 @@ func checkC13(p *Prog, r *Report) {
 			// and must not continue with further outputs
 			continues := false
 			eachInstr(fn, false, func(_ *ssa.Function, j ssa.Instruction) {
-				if isCallTo(j, "fs.Walk", "fs.WalkMode") || callsFn(j, storeFile) {
+				if isWalkLike(j) {
 					if j == first || existsPath(fn, first, j, nil) {
 						continues = true
 					}
